@@ -8,7 +8,7 @@
 
   insim <readSize> <maxKey> <thr|N> <hasWake 0|1> <nPipes> <nAgenda> <agenda item>* <main op>*
     agenda item: A<t>:<hex> arrive | U<t>:<hex> unget | T<t>:<e> trigger | S<t>:<when>:<e> schedule
-                 X<t>:<p>:<e> tsAppend | Y<t>:<p> tsWrite | I<t> sigint | G<t>:<n> signal | Z<t> spurious
+                 X<t>:<p>:<e> tsAppend | Y<t>:<p> tsWrite | W<t>:<p> tsDone | I<t> sigint | G<t>:<n> signal | Z<t> spurious
     main op:     r<timeout|N> request | d<dt> advance
   reply: one token per request (k:<hex> key, p:<hex>,<hex>.. paste, q:<e> i:<e> s:<e> g n E:<Kind> B F) then
          "|" and the final state.
@@ -102,6 +102,7 @@ def decAgendaItem (tok : String) : Option (Time × EnvAct Nat) :=
     else if kind == "U" then (decHex x).map fun b => (t, .unget b)
     else if kind == "T" then x.toNat?.map fun e => (t, .trigger e)
     else if kind == "Y" then x.toNat?.map fun p => (t, .tsWrite p)
+    else if kind == "W" then x.toNat?.map fun p => (t, .tsDone p)
     else if kind == "G" then x.toNat?.map fun n => (t, .signal n)
     else none
   | [t, x, y] => do
